@@ -298,6 +298,37 @@ func genHeadersFirst(g *core.Gen) {
 		class, nontrivial, line := hfLine(g.R)
 		g.Case(class, nontrivial, "C17 "+line)
 	}
+	genOrphanPool(g)
+}
+
+// genOrphanPool: the orphan pool bound (100): 99 / 100 / 101 / more orphans, the oldest one is evicted;
+// a stale cached "oldest" pointer (its orphan was accepted meanwhile) evicts nothing.
+func genOrphanPool(g *core.Gen) {
+	r := g.R
+	for i := 0; i < g.N(6, 40); i++ {
+		k := int(r.Pick(100, 101, 102, 103, 104, 108)) // chain 0..k: blocks k..2 delivered first are k-1 orphans
+		var ds []string
+		for id := k; id >= 2; id-- {
+			ds = append(ds, fmt.Sprintf("b%d", id))
+		}
+		ds = append(ds, fmt.Sprintf("b%d", k), fmt.Sprintf("b%d", k-1), fmt.Sprintf("b%d", k-3), "b1")
+		for j := 0; j < 4; j++ {
+			ds = append(ds, fmt.Sprintf("b%d", k-j), fmt.Sprintf("h%d", k-j))
+		}
+		g.Case("hf-orphan-pool", true, fmt.Sprintf("C17 hf 0:%d - %s", k, strings.Join(ds, " ")))
+	}
+	for i := 0; i < g.N(3, 20); i++ {
+		// nodes: 1 (child of 0), 2 (child of 1), chain 3..(2+m) off the root; 3 is never delivered
+		m := int(r.Pick(103, 104, 106))
+		top := 2 + m
+		ds := []string{"b2", fmt.Sprintf("b%d", top), "b1"} // pool [2,top], oldest=2; b1 accepts 1 and 2: pointer stale
+		n := int(r.Pick(98, 99, 100, 101))
+		for id := top - 1; id > top-1-n && id > 3; id-- {
+			ds = append(ds, fmt.Sprintf("b%d", id))
+		}
+		ds = append(ds, fmt.Sprintf("b%d", top), fmt.Sprintf("b%d", top-1), fmt.Sprintf("b%d", top-2), "b3", fmt.Sprintf("b%d", top))
+		g.Case("hf-orphan-pool-stale", true, fmt.Sprintf("C17 hf 0:1,1:1,0:%d - %s", m, strings.Join(ds, " ")))
+	}
 }
 
 // hfLine makes one headers-first history (without the property prefix).
